@@ -77,7 +77,7 @@ structure InvCore (st : State L T K V) : Prop where
   derivedOk : ∀ g k v, st.derived.get? (g, k) = some v →
     g < st.nextGen ∧ ∀ key it, st.parser.get? key = some it → it.gen = g →
       v = compute (parse it.lines) k
-  sigOk : ∀ e ∈ st.sig, e.1.2.2 < st.nextMatch
+  sigOk : ∀ e ∈ st.sig, ∀ m, e.1.2.1 = some m → m < st.nextMatch
 
 structure Inv (st : State L T K V) : Prop extends InvCore parse compute st where
   curOk : ∀ sc, st.cur = some sc → ∃ it, st.parser.get? sc.key = some it ∧ it.obj = sc.obj
@@ -276,12 +276,15 @@ theorem lookup_spec (hs : cfg.Sound) (st : State L T K V) (k : K) (s : L)
             rw [hkey, hit] at h2; cases h2
             exact memo' [] k' v' h
 
-/-- one signature lookup through the time cache -/
-theorem sigq_spec (hs : cfg.Sound) (st : State L T K V) (k : K) (s : L)
+/-- one signature lookup through the time cache: invariant and current text are kept whatever the
+cursor; the value is the direct computation when the regex matched (fresh key) or unmatched keys
+are not cached -/
+theorem sigq_spec (hs : cfg.Sound) (st : State L T K V) (pos : Nat) (matched : Bool) (k : K) (s : L)
     (hi : Inv parse compute st) (hcur : curLines st = some s) :
-    (sigq cfg compute st k).1 = some (compute (parse s) k) ∧
-    Inv parse compute (sigq cfg compute st k).2 ∧
-    curLines (sigq cfg compute st k).2 = some s := by
+    Inv parse compute (sigq cfg compute st pos matched k).2 ∧
+    curLines (sigq cfg compute st pos matched k).2 = some s ∧
+    ((matched = true ∨ cfg.sigCachesUnmatched = false) →
+      (sigq cfg compute st pos matched k).1 = some (compute (parse s) k)) := by
   unfold curLines at hcur
   cases hsc : st.cur with
   | none => simp [hsc] at hcur
@@ -299,7 +302,7 @@ theorem sigq_spec (hs : cfg.Sound) (st : State L T K V) (k : K) (s : L)
     have hinv : ∀ st' : State L T K V, st'.cur = some sc → st'.parser = st.parser →
         st'.heap = st.heap → st'.derived = st.derived → st'.memo = st.memo →
         st'.nextGen = st.nextGen → st'.nextObj = st.nextObj →
-        (∀ e ∈ st'.sig, e.1.2.2 < st'.nextMatch) → Inv parse compute st' := by
+        (∀ e ∈ st'.sig, ∀ m, e.1.2.1 = some m → m < st'.nextMatch) → Inv parse compute st' := by
       intro st' h1 h2 h3 h4 h5 h6 h7 h8
       refine ⟨⟨?_, ?_, ?_, h8⟩, ?_, ?_⟩
       · rw [h2, h3, h6, h7]; exact hi.heapOk
@@ -307,29 +310,44 @@ theorem sigq_spec (hs : cfg.Sound) (st : State L T K V) (k : K) (s : L)
       · rw [h2, h4, h6]; exact hi.derivedOk
       · rw [h1, h2, ← hsc]; exact hi.curOk
       · rw [h1, h2, h5, ← hsc]; exact hi.memoOk
+    have hold : ∀ e ∈ st.sig, ∀ m, e.1.2.1 = some m → m < st.nextMatch + 1 :=
+      fun e he m hm => Nat.lt_succ_of_lt (hi.sigOk e he m hm)
     unfold sigq
     simp only [hsc, hheap, hs.fresh, if_true]
-    cases hkey : sc.key with
-    | none =>
-      simp only
-      refine ⟨by first | rfl | trivial, hinv _ rfl rfl rfl rfl rfl rfl rfl ?_, hcl _ rfl rfl⟩
-      intro e he
-      exact Nat.lt_succ_of_lt (hi.sigOk e he)
-    | some p =>
-      simp only
-      have hnone : st.sig.get? (some p, k, st.nextMatch) = none := by
-        cases h : st.sig.get? (some p, k, st.nextMatch) with
-        | none => rfl
-        | some e =>
-          have := hi.sigOk _ (AMap.mem_of_get? _ _ _ h)
-          simp at this
-      simp only [hnone]
-      refine ⟨by first | rfl | trivial, hinv _ rfl rfl rfl rfl rfl rfl rfl ?_, hcl _ rfl rfl⟩
-      intro e he
-      simp only [AMap.set, AMap.keep, List.mem_cons, List.mem_filter] at he
-      rcases he with he | he
-      · subst he; exact Nat.lt_succ_self _
-      · exact Nat.lt_succ_of_lt (hi.sigOk e he.1)
+    split
+    · -- not cached
+      exact ⟨hinv _ rfl rfl rfl rfl rfl rfl rfl hold, hcl _ rfl rfl, fun _ => by first | rfl | trivial⟩
+    · rename_i hnc
+      have hnew : ∀ e ∈ st.sig.set (sc.key, (if matched = true then some st.nextMatch else none), pos)
+            (st.clock + cfg.validity, compute (parse it.lines) k),
+          ∀ m, e.1.2.1 = some m → m < st.nextMatch + 1 := by
+        intro e he m hm
+        simp only [AMap.set, AMap.keep, List.mem_cons, List.mem_filter] at he
+        rcases he with he | he
+        · subst he
+          simp only at hm
+          split at hm
+          · cases hm; exact Nat.lt_succ_self _
+          · cases hm
+        · exact hold e he.1 m hm
+      cases hg : st.sig.get? (sc.key, (if matched = true then some st.nextMatch else none), pos) with
+      | none =>
+        simp only
+        exact ⟨hinv _ rfl rfl rfl rfl rfl rfl rfl hnew, hcl _ rfl rfl, fun _ => by first | rfl | trivial⟩
+      | some e =>
+        obtain ⟨expiry, v⟩ := e
+        simp only
+        split
+        · refine ⟨hinv _ rfl rfl rfl rfl rfl rfl rfl hold, hcl _ rfl rfl, ?_⟩
+          intro hm
+          exfalso
+          rcases hm with hm | hm
+          · have := hi.sigOk _ (AMap.mem_of_get? _ _ _ hg) st.nextMatch (by simp [hm])
+            omega
+          · simp [hm] at hnc
+            have := hi.sigOk _ (AMap.mem_of_get? _ _ _ hg) st.nextMatch (by simp [hnc.2])
+            omega
+        · exact ⟨hinv _ rfl rfl rfl rfl rfl rfl rfl hnew, hcl _ rfl rfl, fun _ => by first | rfl | trivial⟩
 
 theorem gc_spec (st : State L T K V) (hi : Inv parse compute st) :
     Inv parse compute (gc cfg st) ∧ curLines (gc cfg st) = curLines st := by
@@ -356,9 +374,9 @@ theorem step_inv (hs : cfg.Sound) (st : State L T K V) (o : Op L K) (hi : Inv pa
           simp [curLines, hsc, hit] at hcur
       simp only [step, lookup, this]
       exact hi
-  | sigq k =>
+  | sigq pos m k =>
     cases hcur : curLines st with
-    | some s => exact (sigq_spec cfg parse compute hs st k s hi hcur).2.1
+    | some s => exact (sigq_spec cfg parse compute hs st pos m k s hi hcur).1
     | none =>
       have : st.cur = none := by
         cases hsc : st.cur with
@@ -389,7 +407,7 @@ theorem step_curLines (hs : cfg.Sound) (st : State L T K V) (o : Op L K) (s : L)
   cases o with
   | script key text ptime => simp [Op.isScript] at ho
   | lookup k => exact (lookup_spec cfg parse compute hs st k s hi hcur).2.2
-  | sigq k => exact (sigq_spec cfg parse compute hs st k s hi hcur).2.2
+  | sigq pos m k => exact (sigq_spec cfg parse compute hs st pos m k s hi hcur).2.1
   | tick dt => exact hcur
   | gc => exact hcur
 
@@ -406,7 +424,8 @@ theorem run_curLines (hs : cfg.Sound) (t : List (Op L K)) (st : State L T K V) (
 
 /-- a whole query: the answer is the query evaluated on a from-scratch parse of the current text -/
 theorem runQ_spec {A : Type} (hs : cfg.Sound) (q : Q K V A) (st : State L T K V) (s : L)
-    (hi : Inv parse compute st) (hcur : curLines st = some s) :
+    (hi : Inv parse compute st) (hcur : curLines st = some s)
+    (hq : q.Matched ∨ cfg.sigCachesUnmatched = false) :
     (runQ cfg compute st q).1 = some (evalQ (compute (parse s)) q) := by
   induction q generalizing st with
   | done a => rfl
@@ -418,16 +437,17 @@ theorem runQ_spec {A : Type} (hs : cfg.Sound) (q : Q K V A) (st : State L T K V)
     simp only at h1 h2 h3
     subst h1
     simp only [evalQ]
-    exact ih _ st' h2 h3
-  | askSig k cont ih =>
-    obtain ⟨h1, h2, h3⟩ := sigq_spec cfg parse compute hs st k s hi hcur
+    exact ih _ st' h2 h3 (hq.imp (fun h => h _) id)
+  | askSig pos m k cont ih =>
+    obtain ⟨h2, h3, h1⟩ := sigq_spec cfg parse compute hs st pos m k s hi hcur
+    have h1 := h1 (hq.imp (fun h => h.1) id)
     unfold runQ
-    generalize sigq cfg compute st k = r at h1 h2 h3
+    generalize sigq cfg compute st pos m k = r at h1 h2 h3
     obtain ⟨v, st'⟩ := r
     simp only at h1 h2 h3
     subst h1
     simp only [evalQ]
-    exact ih _ st' h2 h3
+    exact ih _ st' h2 h3 (hq.imp (fun h => h.2 _) id)
 
 theorem run_append (st : State L T K V) (a b : List (Op L K)) :
     run cfg parse compute st (a ++ b) = run cfg parse compute (run cfg parse compute st a) b := by
